@@ -311,4 +311,6 @@ def gen_scenario(rng, knobs=None):
                         acts.insert(pos, ["yield"])
     return {"evstyle": style, "mixed": mixed, "values": values, "async": acoro, "falsy_machine": rng.random() < K["falsy_machine"], "n": n, "initial": initial, "finals": finals, "ne": ne, "trans": trans, "states": states,
             "provs": provs, "start": start, "rtc": rtc, "allow": rng.random() < K["allow"],
-            "field0": field0, "tbl": tbl, "ops": ops}
+            "field0": field0, "tbl": tbl, "ops": ops,
+            "decoys": ([[0 if rng.random() < 0.7 else rng.randrange(len(ops)), rng.choice([None] + list(range(n)))]
+                        for _ in range(rng.randint(1, 2))] if rng.random() < K.get("decoys", 0.0) else [])}
